@@ -30,6 +30,10 @@ pub(super) struct Closing {
 #[derive(Debug)]
 pub(super) struct RuntimeState {
     pub(super) session_resumed: bool,
+    /// Keep-alive requested by the application; sent in every CONNECT.
+    pub(super) configured_keepalive: Duration,
+    /// Keep-alive in effect on the current connection (a Server Keep Alive overrides the
+    /// configured value for that connection only).
     pub(super) keepalive_interval: Duration,
     pub(super) send_quota: u16,
     pub(super) max_send_quota: u16,
@@ -44,6 +48,7 @@ impl RuntimeState {
     pub(super) fn new(keepalive_interval: Duration) -> Self {
         Self {
             session_resumed: false,
+            configured_keepalive: keepalive_interval,
             keepalive_interval,
             send_quota: u16::MAX,
             max_send_quota: u16::MAX,
